@@ -861,13 +861,18 @@ NOT PROVED (stated here, listed in the evidence file under `assumptions`, evalua
  * finite_ieee : for binary64 payloads no entry of the array is ever ±inf/NaN.  `entries_inv` reduces it to "the row
    kernel maps finite arrays and finite draws to finite rows", i.e. no overflow in `A·Z + B·b`; for the stable
    configurations this is a statement about IEEE arithmetic and the tails of the normal generator; on the
-   pinned tree (float32 covariance) it was FALSE for outer scales beyond ≈ 2·10⁴ pixels (finding `stability:vk:L0/pixel>2e4`,
-   fixed by 4518b2c); the check keeps replaying that configuration and adds outer scales up to 10⁷ pixels.
+   pinned tree (float32 covariance) it was FALSE for outer scales beyond ≈ 2·10⁴ pixels, and on the repaired tree (double
+   precision, 4518b2c) it is FALSE in the long run beyond ≈ 10⁵…10⁶ pixels, where the recursion diverges exponentially (open
+   finding `stability:vk:L0/pixel>2e4`: PhaseScreenVonKarman(32, 0.04, 0.3, 4e6) reaches 7·10³⁴ after 20000 rows and overflows
+   later); the check replays that witness on every run and generates outer scales up to 10⁷ pixels.
  * contraction_holds : ∀ configurations for which construction succeeds, ∃ k c, ‖companionF (vkShift nc n) A ^ k‖_F ≤ c < 1.
    This is a numerical fact about the matrices SciPy returns; the check computes a witness (k, ‖F^k‖_F) per
-   configuration.  It was false on the pinned tree for outer scales beyond ≈ 2·10⁴ pixels (finding
-   `stability:vk:L0/pixel>2e4`, float32 covariance; fixed by 4518b2c — `unstable_diverges` + a real eigenvalue ≥ 1 showed
-   non-convergence there); on the repaired tree a witness is found for every configuration the check generates.
+   configuration.  It is FALSE of the code for large outer scales (OPEN finding `stability:vk:L0/pixel>2e4`): on the pinned tree
+   (float32 covariance) beyond ≈ 2·10⁴ pixels; on the repaired tree (4518b2c) beyond L0/pixel ≈ 10⁵, where the spectral radius of
+   the companion matrix is 1 ± eps·cond(Σzz) and its sign a coin toss for every n_columns, the default included
+   (PhaseScreenVonKarman(32, 0.04, 0.3, 4e6): 1 + 3.4·10⁻³; marginal already at 1.8·10⁵ pixels: PhaseScreenVonKarman(15, 0.0394399,
+   0.307893, 7018.79, n_columns=4): 1 + 9.1·10⁻⁸) — `unstable_diverges` + a real eigenvalue ≥ 1 show non-convergence there.  For
+   L0/pixel ≤ 2·10⁴ a witness is found for every configuration the check generates.
    EVERY stability theorem above (`unique_and_convergent`, `vk_stable`, `vk_stable_concrete`, `vk_stable_from_cov`,
    `start_forgotten`, `exposed_stationary_limit`) carries this witness as a HYPOTHESIS (`hk hc hF`).
  * exposed_screen : the stability clause is proved for the recursion STATE (first n_columns rows) only.  For the older rows of
